@@ -15,7 +15,7 @@ def dispatch : String → Option (String → String)
   | "C01" => some (fun l => if l.startsWith "(c01wire" then Wire.runLine l else AbiGen.runLine l)
   | "C02" => some (fun l => if l.startsWith "(c02cpp" then CppMethod.runLine l else CppGen.runLine l)
   | "C03" => some Own.runLine
-  | "C04" => some Lifetimes.runLine
+  | "C04" => some (fun l => if l.startsWith "(c04nest" then Lifetimes.runNest l else Lifetimes.runLine l)
   | "C05" => some Lower.runLine
   | "C06" => some Rename.runLine
   | "C07" => some (fun l => if l.startsWith "(c07kt" then KtNative.runLine l else DartKt.runLine l)
